@@ -16,7 +16,12 @@ RULE = ("Adaptive generation inside one Hypothesis example: (1) a premise pool i
         "Monotony, Cut and (System Z, lex) Rational Monotony are instantiated, in strict mode "
         "also (Bottom|A) for satisfiable A; (3) the conclusions are asked on a FRESH manager. "
         "Operators x back-ends x modes rotate (5 configurations per case; c-inference strict "
-        "only). Sources: small strongly/weakly consistent generated bases, medium bases, corpora. "
+        "only). Sources: small strongly/weakly consistent generated bases, medium bases, corpora, "
+        "and 'distinguishing inputs' (vlib/hard.py: queries on which the System W / lexicographic "
+        "procedure and a plausible wrong variant of it disagree; asked on that operator's two "
+        "back-ends). Queries of small cases are TARGETS: their falsifying worlds are split in two "
+        "(phi_1, phi_2) and (B|A&(B;phi_i)), (B;phi_i|A) join the premise pool, so that the target "
+        "follows by Or and implies each companion by Right Weakening + Cautious Monotony. "
         "evaluations = postulate instances whose premises held and whose conclusion was asked. "
         "non-trivial = such an instance whose conclusion is not decided by a short cut (A, A&B, "
         "A&notB satisfiable); distinct by (base, cfg, mode, postulate, conclusion text).")
@@ -31,7 +36,7 @@ POSTULATES = ["DI", "REF", "SUPRA", "LLE", "RW", "AND", "OR", "CM", "CUT", "RM",
 
 
 def budget(tier):
-    return {"examples": 220 if tier == "quick" else 3000,
+    return {"examples": 220 if tier == "quick" else 3000, "hard_examples": 128 if tier == "quick" else 1600,
             "soft_seconds": 300 if tier == "quick" else 3000}
 
 
@@ -41,6 +46,40 @@ def _search_lex(seed):
     c = dict(c04.search(seed))
     c["lexsearch"] = True
     return c
+
+
+def _hard(seed):
+    """distinguishing inputs for the System W / lexicographic procedures (vlib/hard.py); the found
+    query becomes a target of the postulate instances (see split_companions)"""
+    from .. import hard
+    c = dict(hard.any_kind(seed))
+    c["hard"] = True
+    return c
+
+
+def split_companions(B, A, atoms, rnd):
+    """For a target (B|A) whose falsifying worlds F are split into F1 + F2 (phi_i = the worlds of
+    F_i): premises (B|A&(B;phi_1)), (B|A&(B;phi_2)) give the target back by Or (up to equivalence
+    of the antecedent), and the target gives each of them by Right Weakening + Cautious Monotony
+    ((B|A), (B;phi_i|A) => (B|A&(B;phi_i))).  So a wrong answer on the target in either direction
+    contradicts a postulate unless the companions are wrong in the same way."""
+    from .. import hard
+    if len(atoms) > 7:
+        return []
+    ats = list(atoms)
+    a, b = fm.tt(A, ats), fm.tt(B, ats)
+    F = list(fm.worlds_of(a & ~b & fm.full(len(ats))))
+    V = list(fm.worlds_of(a & b))
+    if not V or len(F) < 2 or len(F) > 12:
+        return []
+    rnd.shuffle(F)
+    h = rnd.randint(1, len(F) - 1)
+    out = [(B, A)]
+    for part in (F[:h], F[h:]):
+        phi = fm.disj([hard.cube(w, ats) for w in sorted(part)])
+        out.append((B, fm.And(A, fm.Or(B, phi))))
+        out.append((fm.Or(B, phi), A))
+    return out
 
 
 @st.composite
@@ -62,6 +101,18 @@ def _case(draw, tier):
 
 def strategy(tier):
     return _case(tier)
+
+
+@st.composite
+def _hard_case(draw):
+    c = dict(draw(st.integers(0, 2**40).map(_hard)))
+    c["pseed"] = draw(st.integers(0, 2**32))
+    c["rot"] = draw(st.integers(0, len(ALL) - 1))
+    return c
+
+
+def hard_strategy(tier):
+    return _hard_case()
 
 
 def _sat(f):
@@ -199,11 +250,28 @@ def run_case(case, ctx):
         for _, B, A in gen.case_parts(case)[2][:2]:
             x = gen.r_literal(rnd, atoms)
             pool = [(B, A), (x, A), (B, fm.And(A, x)), (fm.Not(x), A), (B, fm.And(A, fm.Not(x)))] + pool
+    if src == "small":
+        # the case's own queries are targets: their split companions lead the premise pool
+        used = gen.all_atoms(atoms, base, [])
+        lead = []
+        for _, B, A in gen.case_parts(case)[2][:2]:
+            if set(fm.atoms_of(A)) | set(fm.atoms_of(B)) <= set(used):
+                lead += split_companions(B, A, used, rnd)
+        if lead:
+            ctx.stratum("targets:split-companions")
+            pool = lead + [x for x in pool if x not in lead]
+            pool = pool[:14] if case.get("hard") else pool[:44]
     if not pool:
         return []
     pq = [(i + 1, B, A) for i, (B, A) in enumerate(pool)]
     rot = case.get("rot", 0)
     chosen = [ALL[(rot + 3 * i) % len(ALL)] for i in range(5)]
+    if case.get("hard") and ":" in str(case.get("searched")):
+        ctx.stratum("source:distinguishing-input")
+        ctx.extra["reference_only_candidates"] = ctx.extra.get("reference_only_candidates", 0) + case.get("tried", 0)
+        op = case["searched"].split(":")[0]
+        wk = bool(case.get("rot", 0) % 2)
+        chosen = [(f"{op}-rc2", False), (f"{op}-z3", False), (f"{op}-{'z3' if wk else 'rc2'}", True)]
     out = []
     bid = gen.case_hash([case.get("corpus"), [[k, fm.to_json(B), fm.to_json(A)] for k, B, A in base]])
     btxt = [f"{kk}:{fm.cond_text(b, a)}" for kk, b, a in base][:30]
@@ -258,4 +326,4 @@ def shrink(case):
 
 def required_strata(tier):
     return [f"postulate:{p}" for p in POSTULATES] + ["source:small", "source:medium", "source:random_large",
-                                                      "instance:nontrivial"]
+                                                      "instance:nontrivial", "source:distinguishing-input", "targets:split-companions"]
